@@ -53,7 +53,7 @@ class Counting(object):
 def new_case(label, **kw):
     c = {'label': label, 'eqs': [], 'lags': [], 'exos': [], 'ics': [], 'maxtime': 3, 'tol_line': None,
          'tol_param': None, 'cap': None, 'reduction': True, 'funcs': [], 'lam': 1.0, 'contractive': False,
-         'exp': None}
+         'exp': None, 'alias': None}
     c.update(kw)
     return c
 
@@ -250,7 +250,8 @@ def observe(case, whole=True):
     events = []
     horizon = int(case['maxtime'])
     fin = {'ev': 'Finish', 'returned': False, 'contractive': bool(case.get('contractive')), 'exc': 'none',
-           'horizon': horizon, 'whole_equal': True, 'steps': 0, 'stage': 'solve', 'exc_type': '', 'lens_ok': True}
+           'horizon': horizon, 'whole_equal': True, 'steps': 0, 'stage': 'solve', 'exc_type': '', 'lens_ok': True,
+           'alias_pred': 'na', 'alias_obs': 'na'}
     counters = {}
     use_trace = not case['funcs']
     try:
@@ -264,6 +265,12 @@ def observe(case, whole=True):
         return [fin]
     fin['horizon'] = horizon
     P = s.Parser
+    if case.get('alias'):
+        # spec/SolverForms.tla predicts whether the reduction substitutes the alias away
+        name = case['alias']['name']
+        gone = any(v == name for v, _ in P.Decoration) and not any(name in _names_in(e) for _, e in P.Endogenous)
+        fin['alias_pred'] = 'substituted' if case['alias']['subst'] else 'kept'
+        fin['alias_obs'] = 'substituted' if gone else 'kept'
     cap = int(s.MaxIterations)
     failed = None
     for k in range(1, horizon + 1):
@@ -362,7 +369,8 @@ def observe(case, whole=True):
 TLA_STEP_FIELDS = ('ev', 'k', 'sweeps', 'cap', 'horizon', 'exit', 'errNaN', 'finite', 'traced', 'resid_ok', 'undef',
                    'deco_exact', 'lag_exact', 'exo_exact', 'len_sim', 'len_lag', 'len_deco', 'len_min', 'len_max',
                    'prefix_intact', 'exp_n', 'returned')
-TLA_FINISH_FIELDS = ('ev', 'returned', 'contractive', 'exc', 'horizon', 'whole_equal', 'steps', 'lens_ok')
+TLA_FINISH_FIELDS = ('ev', 'returned', 'contractive', 'exc', 'horizon', 'whole_equal', 'steps', 'lens_ok',
+                     'alias_pred', 'alias_obs')
 
 
 def for_tla(events):
@@ -530,6 +538,62 @@ def scenario_realisable(beh):
 
 
 # ----------------------------------------------------------------------------------------------
+# (a2) systems realising the shapes of spec/SolverForms.tla
+# ----------------------------------------------------------------------------------------------
+
+FORM_TEXT = {'plain': '%s', 'plus': '+%s', 'par': '(%s)', 'neg': '-%s', 'neg_sp': '- %s', 'neg_par': '(-%s)',
+             'neg_mul': '-1*%s', 'zero_minus': '0 - %s'}
+# position -> (expression in the alias name, bound on |d expr / d alias| for |alias| <= 4)
+POSITION_TEXT = {
+    'sum': ('%s + 5', 1), 'sub': ('5 - %s', 1), 'uminus': ('-%s + 5', 1), 'factor': ('2*%s', 2),
+    'factor_r': ('%s*2', 2), 'dividend': ('%s/2', 1), 'divisor': ('8/%s', 2), 'div_chain': ('8/%s/2', 1),
+    'pow2': ('%s**2', 8), 'pow3': ('%s**3', 48), 'neg_pow2': ('-%s**2', 8), 'sub_pow2': ('5 - %s**2', 8),
+    'par_pow2': ('(%s)**2', 8), 'powfn': ('pow(%s, 2)', 8), 'self_mul': ('%s*%s', 8), 'sub_mul': ('5 - %s*2', 2),
+    'pow_exp': ('2**%s', 12), 'abs': ('abs(%s)', 1), 'max1': ('max(%s, 1)', 1), 'paren_mul': ('(%s)*2', 2),
+}
+
+
+def form_case(beh):
+    """A = <form>(S);  U = 0.25*U + <position>(A): the source S takes the values 2 and -4 over the periods
+    (simultaneous: y = 0.5*y + cy; exogenous path; lagged: LAG_w = w(k-1) with w(0) = 2)."""
+    sysd = beh['sys']
+    src = sysd['src']
+    H = 2
+    c = new_case('form:%s:%s:%s%s%s%s' % (sysd['form'], sysd['pos'], src, ':ic' if sysd['ic'] else '',
+                                          ':red' if sysd['red'] else ':nored', ':via' if sysd['via'] else ''),
+                 maxtime=H, reduction=bool(sysd['red']), tol_line='1e-6')
+    eqs = c['eqs']
+    if src == 'sim':
+        eqs.append(['y', '0.5*y + cy'])
+        c['exos'].append(['cy', [1.0, 1.0, -2.0]])
+        s_name = 'y'
+    elif src == 'exo':
+        c['exos'].append(['y', [2.0, 2.0, -4.0]])
+        s_name = 'y'
+    else:
+        H = 3
+        c['maxtime'] = H
+        eqs.append(['w', '0.5*w + cw'])
+        c['exos'].append(['cw', [1.0, -2.0, -2.0, 1.0]])
+        c['ics'].append(['w', '2.0'])
+        c['lags'].append(['LAG_w', 'w'])
+        s_name = 'LAG_w'
+    eqs.append(['a', FORM_TEXT[sysd['form']] % s_name])
+    if sysd['ic']:
+        c['ics'].append(['a', '1.0'])
+    used = 'a'
+    if sysd['via']:
+        eqs.append(['b', 'a'])
+        used = 'b'
+    text, deriv = POSITION_TEXT[sysd['pos']]
+    expr = text % ((used,) * text.count('%s'))
+    eqs.append(['u', '0.25*u + ' + expr])
+    c['lam'] = 0.25 + float(deriv)
+    c['alias'] = {'name': 'a', 'subst': bool(beh['subst'])}
+    return c
+
+
+# ----------------------------------------------------------------------------------------------
 # (c) the named designed systems
 # ----------------------------------------------------------------------------------------------
 
@@ -693,7 +757,8 @@ def random_system(rng, idx, contractive):
             refs = refs + ['d%d' % i]
         decos.append([name, row(name, False, budget, False)])
         refs = save
-    eqs = rows + [[a, s] for a, s in aliases] + decos
+    # an alias may be a mirror image (al = -x): still 1-Lipschitz
+    eqs = rows + [[a, ('-' + s) if rng.random() < 0.3 else s] for a, s in aliases] + decos
     rng.shuffle(eqs)
     if aliases and not reduction:
         lam = max(lam, 1.0)
@@ -764,6 +829,11 @@ def signature(clause, case, events):
         f = failing_step(events)
         return 'failure-is-not-a-value-or-arithmetic-error:' + str((f or fin).get('exc_type'))
     kind = case['label'].split(':')[0]
+    if kind == 'form':
+        lab = case['label'].split(':')
+        if fin.get('alias_pred') == 'kept' and fin.get('alias_obs') == 'substituted':
+            return '%s:copy-variable-%s-substituted-textually' % (clause, lab[1])
+        return '%s:form:%s:%s' % (clause, lab[1], lab[2])
     return '%s:%s' % (clause, kind)
 
 
@@ -789,9 +859,9 @@ def tlc_behaviours(rep, core, tier):
     return list(seen.values())
 
 
-def expect_counterexample(rep, core, cfg, invariant):
-    """the as-found variant of the spec must still produce TLC's counterexample"""
-    res = core.tlc('MC_Solver', cfg, workers=1, tag=rep.prop.lower(), want_printed=False)
+def expect_counterexample(rep, core, cfg, invariant, module='MC_Solver'):
+    """the as-found / defective variant of the spec must still produce TLC's counterexample"""
+    res = core.tlc(module, cfg, workers=1, tag=rep.prop.lower(), want_printed=False)
     if res.violated != invariant:
         raise core.MachineryError('%s: expected %s to be violated, TLC reports %r' % (cfg, invariant, res.violated))
     rep.add_tlc(res, 'as-found variant %s: counterexample to %s reproduced' % (cfg, invariant))
@@ -803,7 +873,7 @@ def judge_cases(rep, core, focus, items, nontrivial):
     traces = []
     observed = []
     for i, it in enumerate(items):
-        ev = observe(it['case'])
+        ev = observe(it['case'], whole=it.get('whole', True))
         observed.append(ev)
         traces.append((i, for_tla(ev)))
     verdicts, st, tr = core.validate_traces('MC_Solver_Trace', 'MC_Solver_Trace.cfg', traces,
@@ -1051,7 +1121,8 @@ def harvested_events(rec):
         events.append(ev)
     lens_ok = all(len(x) == H + 1 for x in ts.values())
     events.append({'ev': 'Finish', 'returned': True, 'contractive': False, 'exc': 'none', 'horizon': H,
-                   'whole_equal': True, 'steps': H, 'lens_ok': bool(lens_ok), 'exc_type': '', 'stage': 'solve'})
+                   'whole_equal': True, 'steps': H, 'lens_ok': bool(lens_ok), 'exc_type': '', 'stage': 'solve',
+                   'alias_pred': 'na', 'alias_obs': 'na'})
     info['lam_estimate'] = round(lam_max, 6)
     info['rows'] = {'simultaneous': len(endo), 'decorative': len(deco), 'lagged': len(lag_used), 'exogenous': len(exos)}
     case['lam'] = round(2.0 * lam_max + 1e-6, 6)
